@@ -55,7 +55,7 @@ TOPOS_QUICK_FORCED = TOPOS_ALL - {_T({1}, {2}, {3})}
 MC_INV = [
     "SumsToRequested", "FailedPowerIsFailedSetpoints", "SetsDisjoint", "SetsCoverAddressed",
     "PVSetpointsWithinBounds", "SucceededIsSucceededSetpoints", "WaterFillExact", "WaterFillConserves",
-    "EveryAllocationIsCalled", "TypeOfResult", "StaleFormulaIsDetected",
+    "EveryAllocationIsCalled", "TypeOfResult", "StaleFormulaIsDetected", "UnaddressedNotReported",
 ]
 ACTIONS = {
     "pv": ["ConfigureStep", "RequestStep", "PVDistributeStep", "SetPowerStep", "ReplyStep", "TimeoutStep", "CancelStep", "Collected", "Parse", "Send"],
@@ -65,18 +65,18 @@ ACTIONS = {
 
 BASE = dict(
     MaxN=3, PVBounds={0, -6, -12, -18}, PVReqs={0, -6, -12, -18, -24, -30, -36}, PVSorted=False, Topos=TOPOS_ALL,
-    SetGrid={-2, 0, 1}, RemGrid={0, 1}, LostGrid={0, 1}, Profiles=3, RealReqs={-25, -12, -3, 0, 3, 12, 25},
+    SetGrid={-2, 0, 1}, RemGrid={0, 1}, LostGrid={0, 1}, BadKinds={"nw", "nan"}, MaxBad=1, Profiles=3, RealReqs={-25, -12, -3, 0, 3, 12, 25},
     Orders="index", Unit=1, Tol=0,
 )
 SCOPES = {
     "quick": dict(
         pv=dict(PVSorted=True), pv_limit=4000,
-        bat=dict(Topos=TOPOS_QUICK_FORCED, SetGrid={-2, 1}), bat_limit=3000,
-        batreal=dict(), batreal_limit=3000,
+        bat=dict(Topos=TOPOS_QUICK_FORCED, SetGrid={-2, 1}), bat_limit=4000,
+        batreal=dict(), batreal_limit=4000,
     ),
     "thorough": dict(
         pv=dict(Orders="any", PVBounds={0, -12, -24, -36}, PVReqs={-6 * k for k in range(13)}), pv_limit=None,
-        bat=dict(Orders="any", SetGrid={-2, 0, 1, 3}), bat_limit=None,
+        bat=dict(Orders="any"), bat_limit=None,
         batreal=dict(Profiles=4, RealReqs={-40, -25, -12, -7, -3, 0, 3, 7, 12, 25, 40}), batreal_limit=None,
     ),
 }
@@ -93,13 +93,15 @@ def _mw(p) -> int:
 
 class _Tracker:
     """Stands in for ComponentPoolStatusTracker (the repo's tests substitute it the same way):
-    every requested component is working."""
+    every requested component is working, except the ones the case marks "nw"."""
+
+    excluded: frozenset = frozenset()
 
     def __init__(self, *a, **k) -> None:
         self.updates: list = []
 
     def get_working_components(self, ids):
-        return set(ids)
+        return set(ids) - self.excluded
 
     async def update_status(self, succeeded, failed) -> None:
         self.updates.append((set(succeeded), set(failed)))
@@ -280,11 +282,13 @@ def execute(env: _Env, case: dict, rnd: random.Random) -> dict:
     mod = env.pm if kind == "pv" else env.bm
     cm = env.connection_manager
     saved_cm, saved_tr = cm._CONNECTION_MANAGER, mod.ComponentPoolStatusTracker  # pylint: disable=protected-access
+    bad = list(case.get("bad") or [])
     rec = dict(id=case["id"], kind=kind, forced=forced, n=n, topo=[sorted(x) for x in topo], bd=case["bd"], req=case["req"],
-               out=case["out"], prof=case["prof"], s=case.get("s", []), r=case.get("r", 0), ev=events)
+               out=case["out"], prof=case["prof"], bad=bad, s=case.get("s", []), r=case.get("r", 0), ev=events)
+    tracker_cls = type("_CaseTracker", (_Tracker,), dict(excluded=frozenset(BAT_ID + b for b in bats if bad[b - 1] == "nw")))
     with env.ManualLoop() as loop:
         cm._CONNECTION_MANAGER = _CM(api, graph)  # pylint: disable=protected-access
-        mod.ComponentPoolStatusTracker = _Tracker
+        mod.ComponentPoolStatusTracker = tracker_cls
         try:
             res_ch = env.Broadcast(name="results")
             st_ch = env.Broadcast(name="status")
@@ -306,7 +310,7 @@ def execute(env: _Env, case: dict, rnd: random.Random) -> dict:
                 for b in bats:
                     d = bd[b]
                     msg = env.cdw.BatteryDataWrapper(
-                        BAT_ID + b, now, soc=d["soc"], soc_lower_bound=10.0, soc_upper_bound=90.0, capacity=d["cap"],
+                        BAT_ID + b, now, soc=(math.nan if bad[b - 1] == "nan" else d["soc"]), soc_lower_bound=10.0, soc_upper_bound=90.0, capacity=d["cap"],
                         power_inclusion_lower_bound=d["il"], power_exclusion_lower_bound=d["el"],
                         power_exclusion_upper_bound=d["eu"], power_inclusion_upper_bound=d["iu"],
                     )
@@ -328,7 +332,7 @@ def execute(env: _Env, case: dict, rnd: random.Random) -> dict:
                 def spy(power, components):
                     if forced:
                         out = env.DistributionResult(
-                            distribution={INV_ID + i: case["s"][i - 1] * UNIT_W for i in range(1, n + 1)},
+                            distribution={INV_ID + i: case["s"][i - 1] * UNIT_W for i in sorted(case["act"])},
                             remaining_power=case["r"] * UNIT_W,
                         )
                     else:
@@ -402,7 +406,8 @@ def _witness(recs: list[dict]) -> dict:
     """How often the antecedent of each clause was exercised (counting only)."""
     w = dict(records=0, partial_failure=0, success=0, rejected=0, some_call_failed=0, timeout=0, excess_nonzero=0,
              failed_power_nonzero=0, multi_component_inverter=0, shared_battery_mixed_outcome=0, pv_bound_binding=0,
-             instant_replies=0, lost_power=0)
+             instant_replies=0, lost_power=0, unusable_battery=0, unaddressed_battery=0, unaddressed_and_some_call_failed=0,
+             unaddressed_and_all_calls_ok=0)
     by_out = {o: 0 for o in ("ok", "oor", "err", "exc", "to")}
     for r in recs:
         w["records"] += 1
@@ -425,6 +430,15 @@ def _witness(recs: list[dict]) -> dict:
         w["excess_nonzero"] += res["ex"] != 0
         w["failed_power_nonzero"] += res["fp"] != 0
         w["multi_component_inverter"] += any(len(t) > 1 for t in r["topo"])
+        if r["kind"] == "bat" and res["type"] in ("Success", "PartialFailure"):
+            w["unusable_battery"] += any(x != "ok" for x in r["bad"])
+            behind = {b for c in calls if 1 <= c["c"] <= r["n"] for b in r["topo"][c["c"] - 1]}
+            if {b for t in r["topo"] for b in t} - behind:
+                w["unaddressed_battery"] += 1
+                if any(replies.get(c["c"], "to") != "ok" for c in calls):
+                    w["unaddressed_and_some_call_failed"] += 1
+                else:
+                    w["unaddressed_and_all_calls_ok"] += 1
         if r["kind"] == "bat":
             for i, t in enumerate(r["topo"], start=1):
                 for j, u in enumerate(r["topo"], start=1):
@@ -442,6 +456,7 @@ def _witness(recs: list[dict]) -> dict:
     return w
 
 
+_MIN_WITNESS_BAT = ["unaddressed_and_some_call_failed", "unaddressed_and_all_calls_ok", "shared_battery_mixed_outcome"]
 _MIN_WITNESS = ["partial_failure", "success", "some_call_failed", "timeout", "excess_nonzero", "failed_power_nonzero"]
 
 
@@ -489,7 +504,7 @@ def _stage(rep: Report, prop: str, name: str, consts: dict, work: Path, limit):
                 rep.extra["disagreement_samples"].append(dict(stage=name, clause=v["clause"], detail=v["detail"], trace=byid.get(v["tid"])))
     if not any(v["clause"].startswith(prop + ".") for v in fails):
         # vacuity guard (only meaningful when the clauses held: a violating run is reported as such)
-        for k in _MIN_WITNESS:
+        for k in _MIN_WITNESS + (_MIN_WITNESS_BAT if mode != "pv" else []):
             if not wit[k]:
                 raise RuntimeError(f"vacuity: no replayed record of stage {name} exercised '{k}' ({wit})")
     rep.extra.setdefault("stages", []).append(dict(
@@ -510,7 +525,7 @@ def run(prop: str, tier: str) -> int:
     work = scratch(f"{prop}_{tier}")
     rep.assumptions = [
         "power unit 100 W; recorded values are integer mW, equalities up to 5 mW; is_close_to_zero / float rounding not decided",
-        "all addressed components are reported as working (ComponentPoolStatusTracker substituted like the repo's tests do); one request per fresh manager",
+        "ComponentPoolStatusTracker substituted like the repo's tests do: every requested component is working except at most one battery per configuration that is either not listed as working or streams NaN SoC; one request per fresh manager",
         "battery side: the distribution is taken as given (real algorithm observed through a recording wrapper, or a TLC-chosen distribution in the forced stage); its correctness is C01/C02/C17",
         "reply order / instant replies of the answering calls: seeded random per case (VERIF_SEED); what really happened is what is validated",
         "EV charger manager out of scope (property names battery pools and PV pools)",
@@ -533,9 +548,10 @@ def replay(prop: str, data: dict) -> int:
     import warnings
 
     warnings.simplefilter("ignore")
-    case = {k: tr[k] for k in ("id", "kind", "n", "topo", "bd", "req", "out", "prof")}
+    case = {k: tr[k] for k in ("id", "kind", "n", "topo", "bd", "req", "out", "prof", "bad")}
     if tr.get("forced"):
-        case.update(s=tr["s"], r=tr["r"])
+        missing = next((e["missing"] for e in tr["ev"] if e["e"] == "dist"), [])
+        case.update(s=tr["s"], r=tr["r"], act=[i for i in range(1, tr["n"] + 1) if i not in missing])
     rec = execute(_Env(), case, random.Random(SEED * 1000003 + case["id"]))
     d = scratch(f"{prop}_replay")
     p = d / "impl_0.ndjson"
